@@ -203,11 +203,10 @@ var (
 // field.
 func parseFields(obj any) ([]fieldInfo, error) {
 	v := reflect.ValueOf(obj)
-	vt := v.Type()
-	if vt.Kind() != reflect.Pointer || vt.Elem().Kind() != reflect.Struct {
+	if !v.IsValid() || v.Kind() != reflect.Pointer || v.IsNil() || v.Type().Elem().Kind() != reflect.Struct {
 		return nil, errors.New("value is not a pointer to a struct")
 	}
-	vt = vt.Elem()
+	vt := v.Type().Elem()
 	var out []fieldInfo
 	for _, ft := range reflect.VisibleFields(vt) {
 		tag, ok := ft.Tag.Lookup("setec")
